@@ -220,3 +220,39 @@ Proof.
   - destruct (marker_rule p vars sc bol _ _ Hn Hin) as [rl [Hrl Hre]]; [unfold HEAD_MASK; lia|].
     replace (r + HEAD_MASK - HEAD_MASK) with r in Hrl by lia. exists rl. subst re. auto.
 Qed.
+
+(** ** line numbers of REJECT scanners: the events are those of [rej_tokens],
+    and the number attached to the first event of the input is one plus the
+    newlines of the text handed to it *)
+Lemma rej_tokens_ln_events hl altf pol : forall fuel c bol lines w,
+  map fst (rej_tokens_ln fuel hl altf pol c bol lines w) = rej_tokens fuel hl altf pol c bol w.
+Proof.
+  induction fuel as [|f IH]; intros c bol lines w; cbn [rej_tokens_ln rej_tokens]; [reflexivity|].
+  destruct w as [|b w']; [reflexivity|].
+  destruct (walk hl pol c (altf bol (b :: w'))) as [[ev c'] n].
+  assert (E : map fst (map (fun rh : N * nat => (fst rh, snd rh, S (lines + nl_count (firstn (snd rh) (b :: w'))))) ev) = ev).
+  { rewrite map_map. simpl. induction ev as [|[r h] ev IHev]; simpl; [reflexivity|]. rewrite IHev. reflexivity. }
+  destruct n as [|n]; [exact E|]. rewrite map_app, E, IH. reflexivity.
+Qed.
+
+Lemma nl_count_app u v : nl_count (u ++ v) = (nl_count u + nl_count v)%nat.
+Proof. unfold nl_count. rewrite filter_app, app_length. reflexivity. Qed.
+
+(** The number attached to an event is one plus the newlines of the input
+    consumed before its token ([u]) plus those of the text handed to the
+    action (a prefix of the rest [v]) - whatever was rejected before. *)
+Theorem rej_ln_sound hl altf pol : forall fuel c bol pre w e,
+  In e (rej_tokens_ln fuel hl altf pol c bol (nl_count pre) w) ->
+  exists u v, pre ++ w = u ++ v /\ snd e = S (nl_count u + nl_count (firstn (snd (fst e)) v)).
+Proof.
+  induction fuel as [|f IH]; intros c bol pre w e H; cbn [rej_tokens_ln] in H; [contradiction|].
+  destruct w as [|b w']; [contradiction|].
+  destruct (walk hl pol c (altf bol (b :: w'))) as [[ev c'] n].
+  assert (Hev : In e (map (fun rh : N * nat => (fst rh, snd rh, S (nl_count pre + nl_count (firstn (snd rh) (b :: w'))))) ev) ->
+                exists u v, pre ++ b :: w' = u ++ v /\ snd e = S (nl_count u + nl_count (firstn (snd (fst e)) v))).
+  { intros Hin. apply in_map_iff in Hin. destruct Hin as [[r h] [He _]]. subst e. exists pre, (b :: w'). split; reflexivity. }
+  destruct n as [|n]; [auto|].
+  apply in_app_or in H. destruct H as [H|H]; [auto|].
+  rewrite <- nl_count_app in H. apply IH in H. destruct H as [u [v [Huv He]]].
+  exists u, v. split; [|exact He]. rewrite <- Huv, <- app_assoc, firstn_skipn. reflexivity.
+Qed.
